@@ -2,7 +2,7 @@
    Every number crosses the OCaml boundary as a decimal string built / parsed here, so the
    driver does no arithmetic.                                                             *)
 Require Import List ZArith String Bool Arith Ascii.
-Require Import AV.Mini.Syntax AV.Mini.Types AV.Mini.Eval AV.Mini.Print AV.Mini.Gen AV.Mini.Feat AV.Mini.Shrink.
+Require Import AV.Mini.Syntax AV.Mini.Types AV.Mini.Eval AV.Mini.Print AV.Mini.Gen AV.Mini.Feat AV.Mini.Shrink AV.Mini.Corpus AV.Mini.Mut AV.Mini.Session.
 Import ListNotations.
 Local Open Scope string_scope.
 
@@ -43,15 +43,15 @@ Record prog_out : Type := mkProgOut {
   po_run : run_out
 }.
 
-Definition describe_prog (p : prog) : prog_out :=
+Definition describe_prog (q : style) (p : prog) : prog_out :=
   let d := describe p in
   mkProgOut (if typecheck p then "true" else "false")
-            (fst (fst d)) (snd (fst d)) (nat_str (snd d)) (render p) (run_prog p).
+            (fst (fst d)) (snd (fst d)) (nat_str (snd d)) (render q p) (run_prog p).
 
 (* mini gen <seed> <size> *)
 Definition tool_gen (seed size : string) : string * prog_out :=
   let tp := gen_with_tries (Z_of_str seed) (Z.to_nat (Z_of_str size)) in
-  (nat_str (fst tp), describe_prog (snd tp)).
+  (nat_str (fst tp), describe_prog (style_of_seed (Z_of_str seed)) (snd tp)).
 
 (* comma-separated naturals *)
 Fixpoint parse_path (cur : option Z) (s : string) : list nat :=
@@ -69,6 +69,97 @@ Fixpoint parse_path (cur : option Z) (s : string) : list nat :=
    Result: (number of candidates of that program, description)                            *)
 Definition tool_shrink (seed size path : string) : option (string * prog_out) :=
   match walk (gen (Z_of_str seed) (Z.to_nat (Z_of_str size))) (parse_path None path) with
-  | Some q => Some (nat_str (List.length (cands q)), describe_prog q)
+  | Some q => Some (nat_str (List.length (cands q)), describe_prog (style_of_seed (Z_of_str seed)) q)
   | None => None
   end.
+
+(* indices of the top-level forms that the checker rejects (diagnosis only) *)
+Fixpoint diag_items (G : list (ty * bool)) (F : list fundef) (ng nf k : nat) (p : prog) : list nat :=
+  match p with
+  | [] => []
+  | IConst t e :: r | IVar t e :: r =>
+      (if opt_ty_eqb (infer (top_ctx G F ng nf) e) t then [] else [k]) ++ diag_items G F (S ng) nf (S k) r
+  | IFun fd :: r =>
+      (if (Nat.eqb (fd_nglob fd) ng && check_fun G F nf fd)%bool then [] else [k]) ++ diag_items G F ng (S nf) (S k) r
+  | IStmt st :: r =>
+      (if (negb (is_exit st) && check_stmt (top_ctx G F ng nf) st)%bool then [] else [k]) ++ diag_items G F ng nf (S k) r
+  end.
+Definition bad_items (p : prog) : list string :=
+  map nat_str (diag_items (globals_of p) (funs_of p) 0 0 0 p).
+
+(* mini raw <seed> <size> : the generator's first candidate, before the acceptance filter
+   (diagnosis of the generator: why candidates are rejected)                              *)
+Definition tool_raw (seed size : string) : list string * list string * prog_out :=
+  let r := rng_of_seed (Z_of_str seed) in
+  let p := gen0 (draw_feats r) r (Z.to_nat (Z_of_str size)) in
+  (bad_items p, items_src (style_of_seed (Z_of_str seed)) 0 p, describe_prog (style_of_seed (Z_of_str seed)) p).
+
+(* mini corpus : the names;  mini corpus <name> : one fixed program *)
+Definition tool_corpus_names : list string := map fst corpus.
+Definition tool_corpus (name : string) : option prog_out :=
+  match corpus_find name corpus with
+  | Some (q, p) => Some (describe_prog q p)
+  | None => None
+  end.
+
+(* ---------- mutants (C06) and forms (C13) ---------- *)
+Fixpoint count_nl (s : string) : nat :=
+  match s with
+  | EmptyString => 0
+  | String c r => if Nat.eqb (nat_of_ascii c) 10 then S (count_nl r) else count_nl r
+  end.
+
+(* 1-based first and last line of every form, the header occupying the lines before *)
+Fixpoint form_lines (start : nat) (srcs : list string) : list (nat * nat) :=
+  match srcs with
+  | [] => []
+  | x :: r => let n := count_nl x in (S start, start + n)%nat :: form_lines (start + n) r
+  end.
+
+Definition prog_form_lines (q : style) (p : prog) : list (nat * nat) :=
+  form_lines (count_nl (header_of q p)) (items_src q 0 p).
+
+(* about n elements of l, evenly spread *)
+Fixpoint take_every {A : Type} (step i : nat) (l : list A) : list A :=
+  match l with
+  | [] => []
+  | x :: r => if Nat.eqb (i mod step) 0 then x :: take_every step (S i) r else take_every step (S i) r
+  end.
+Definition spread {A : Type} (n : nat) (l : list A) : list A :=
+  let len := List.length l in
+  if Nat.leb len n then l else firstn n (take_every (S ((len - 1) / n)) 0 l).
+
+Record mut_out : Type := mkMutOut {
+  mo_kind : string; mo_site : string; mo_src : string;
+  mo_form : string;            (* index of the form that holds the fault *)
+  mo_lo : string; mo_hi : string;   (* its first / last line in mo_src *)
+  mo_bad : string              (* source text of that form alone *)
+}.
+
+Definition mutant_out (q : style) (p : prog) (k : kind) (site : nat) : mut_out :=
+  let m := mutate k p site in
+  let fi := fault_form k p site in
+  let ln := nth fi (prog_form_lines q m) (0, 0)%nat in
+  mkMutOut (kind_name k) (nat_str site) (render q m) (nat_str fi) (nat_str (fst ln)) (nat_str (snd ln))
+           (nth fi (items_src q 0 m) "").
+
+(* mini mutants <seed> <size> <max-per-kind> : the base program and, for every fault kind,
+   up to max-per-kind eligible single-fault mutants (sites evenly spread); also how many
+   candidate / eligible sites there were per kind                                          *)
+Definition tool_mutants (seed size maxper : string)
+  : prog_out * list (string * (string * string)) * list mut_out :=
+  let q := style_of_seed (Z_of_str seed) in
+  let p := gen (Z_of_str seed) (Z.to_nat (Z_of_str size)) in
+  let n := Z.to_nat (Z_of_str maxper) in
+  let per := map (fun k => (k, eligible_sites k p)) all_kinds in
+  (describe_prog q p,
+   map (fun ks => (kind_name (fst ks),
+                   (nat_str (List.length (muts (fst ks) p)), nat_str (List.length (snd ks))))) per,
+   flat_map (fun ks => map (mutant_out q p (fst ks)) (spread n (snd ks))) per).
+
+(* mini forms <seed> <size> : the header, then every top-level form with the text it prints *)
+Definition tool_forms (seed size : string) : string * list (string * string) * prog_out :=
+  let q := style_of_seed (Z_of_str seed) in
+  let p := gen (Z_of_str seed) (Z.to_nat (Z_of_str size)) in
+  let outs := match forms_outputs gen_fuel p with Some l => l | None => [] end in
+  (header_of q p, combine (items_src q 0 p) outs, describe_prog q p).
